@@ -187,6 +187,8 @@ def run(ctx):
     # ---- the same search loop on BINARY64 score tables of the real built-in scorers (Model/Generic.v at Model/GenericF.v), bit for bit ----
     from harness import floatstreams
     floatstreams.pelt_float_stream(ctx, ctx.n(24, 160))
+    # the DEFAULT configuration on series of realistic length and width, decided by the property-level twin of the model
+    floatstreams.pelt_default_scale_stream(ctx, ctx.n(2, 10))
 
     # ---- glue between the user's data and the search loop (harness/variants.py) ----
     from harness.variants import variants_stream
